@@ -210,6 +210,81 @@ pub enum FCase {
     Special { path: String },
     Directory,
     Missing,
+    /// a named pipe fed by a writer thread in `pieces` (short reads, no length, not mappable); api: 0 = update_mmap,
+    /// 1 = update_mmap_rayon, 2 = update_reader(File)
+    Fifo { mode: ModeC, prefix_len: u16, pieces: Vec<u32>, content: Content, api: u8, pause_us: u16 },
+}
+
+fn check_fifo(mode: &ModeC, prefix_len: u16, pieces: &[u32], content: &Content, api: u8, pause_us: u16) -> Result<(), String> {
+    use std::io::Write;
+    use std::os::unix::ffi::OsStrExt;
+    use std::sync::atomic::{AtomicU64, Ordering};
+    static N: AtomicU64 = AtomicU64::new(0);
+    let total: usize = pieces.iter().map(|p| *p as usize).sum();
+    let all = content.expand(prefix_len as usize + total);
+    let (prefix, data) = all.split_at(prefix_len as usize);
+    let path = crate::hist::scratch_dir().join(format!("c11-fifo-{}-{}", std::process::id(), N.fetch_add(1, Ordering::Relaxed)));
+    let cpath = std::ffi::CString::new(path.as_os_str().as_bytes()).map_err(|e| format!("ENGINE: {}", e))?;
+    if unsafe { libc::mkfifo(cpath.as_ptr(), 0o600) } != 0 {
+        return Err(format!("ENGINE: mkfifo: {}", std::io::Error::last_os_error()));
+    }
+    struct Rm(std::path::PathBuf);
+    impl Drop for Rm {
+        fn drop(&mut self) {
+            let _ = std::fs::remove_file(&self.0);
+        }
+    }
+    let _rm = Rm(path.clone());
+    let wpath = path.clone();
+    let wdata = data.to_vec();
+    let wpieces = pieces.to_vec();
+    // the writer blocks in open() until the code under test opens the pipe for reading; write errors (EPIPE when the
+    // reader gives up early) are ignored: the verdict comes from the reader's side
+    let writer = std::thread::spawn(move || {
+        if let Ok(mut f) = std::fs::OpenOptions::new().write(true).open(&wpath) {
+            let mut at = 0usize;
+            for p in wpieces {
+                if f.write_all(&wdata[at..at + p as usize]).is_err() {
+                    break;
+                }
+                at += p as usize;
+                if pause_us > 0 {
+                    std::thread::sleep(std::time::Duration::from_micros(pause_us as u64));
+                }
+            }
+        }
+    });
+    let mut h = mode.hasher();
+    h.update(prefix);
+    let what = ["update_mmap", "update_mmap_rayon", "update_reader(File)"][api as usize % 3];
+    let r = match api % 3 {
+        0 => h.update_mmap(&path).map(|_| ()),
+        1 => h.update_mmap_rayon(&path).map(|_| ()),
+        _ => match std::fs::File::open(&path) {
+            Ok(f) => h.update_reader(f).map(|_| ()),
+            Err(e) => Err(e),
+        },
+    };
+    // make sure the writer can finish whatever happened: drain the pipe from a non-blocking reader until it is done
+    if !writer.is_finished() {
+        use std::io::Read;
+        use std::os::unix::fs::OpenOptionsExt;
+        if let Ok(mut d) = std::fs::OpenOptions::new().read(true).custom_flags(libc::O_NONBLOCK).open(&path) {
+            let mut buf = vec![0u8; 65536];
+            let t0 = std::time::Instant::now();
+            while !writer.is_finished() && t0.elapsed().as_secs() < 20 {
+                let _ = d.read(&mut buf);
+                std::thread::sleep(std::time::Duration::from_micros(200));
+            }
+        }
+    }
+    let _ = writer.join();
+    r.map_err(|e| format!("{} on a named pipe failed: {}", what, e))?;
+    let mut model = b3spec::Incr::new(mode.kf());
+    model.push(prefix);
+    model.push(data);
+    ensure!(h.count() == model.len(), "{} on a named pipe fed {} bytes in {} pieces absorbed {} bytes", what, total, pieces.len(), h.count() - prefix.len() as u64);
+    eq_bytes(&format!("{} on a named pipe ({} bytes in {} pieces)", what, total, pieces.len()), h.finalize().as_bytes(), &model.output().hash())
 }
 
 fn three_ways(mode: &ModeC, prefix: &[u8], path: &std::path::Path, expect: &[u8]) -> Result<(), String> {
@@ -265,6 +340,7 @@ pub fn check_file(c: &FCase) -> Result<(), String> {
             ensure!(h.count() == 0 && h.finalize() == blake3::hash(b""), "a failed update_mmap changed the hasher");
             Ok(())
         }
+        FCase::Fifo { mode, prefix_len, pieces, content, api, pause_us } => check_fifo(mode, *prefix_len, pieces, content, *api, *pause_us),
         FCase::Missing => {
             let p = crate::hist::scratch_dir().join("does-not-exist");
             let mut h = blake3::Hasher::new();
@@ -292,6 +368,13 @@ pub fn classify_file(c: &FCase) -> Classes {
         FCase::Special { .. } => Classes::new(true).tag(true, "special-path"),
         FCase::Directory => Classes::new(true).tag(true, "directory"),
         FCase::Missing => Classes::new(true).tag(true, "missing-path"),
+        FCase::Fifo { pieces, api, .. } => Classes::new(pieces.len() >= 2)
+            .tag(true, "named-pipe")
+            .tag(pieces.len() >= 2, "pipe-fed-in-pieces")
+            .tag(pieces.iter().map(|p| *p as u64).sum::<u64>() > 65536, "pipe>64KiB")
+            .tag(*api % 3 == 0, "pipe-update_mmap")
+            .tag(*api % 3 == 1, "pipe-update_mmap_rayon")
+            .tag(*api % 3 == 2, "pipe-update_reader"),
     }
 }
 
@@ -314,19 +397,29 @@ fn file_items(tier: Tier) -> Box<dyn Iterator<Item = FCase>> {
         v.push(FCase::Regular { mode, prefix_len: if i % 4 == 3 { 100 } else { 0 }, len: *len, content: Content { kind: 3, seed: i as u64 } });
     }
     // /sys/kernel/btf/vmlinux: several MB, readable, but mmap() fails on it (the repository's own io test uses it)
-    for p in ["/proc/version", "/proc/cpuinfo", "/dev/null", "/proc/self/cmdline", "/etc/hostname", "/sys/kernel/notes", "/proc/filesystems", "/sys/kernel/btf/vmlinux"] {
+    for p in ["/proc/version", "/proc/sys/kernel/osrelease", "/dev/null", "/proc/self/cmdline", "/etc/hostname", "/sys/kernel/notes", "/proc/filesystems", "/sys/kernel/btf/vmlinux", "/proc/kallsyms", "/proc/modules", "/proc/self/environ", "/proc/config.gz"] {
         v.push(FCase::Special { path: p.to_string() });
     }
     v.push(FCase::Directory);
     v.push(FCase::Missing);
+    // named pipes: one piece, several short pieces, pieces around the 16 KiB mapping threshold and the 64 KiB read buffer
+    let shapes: Vec<Vec<u32>> = vec![vec![], vec![1], vec![5000, 5000, 5000], vec![16383, 1, 16384], vec![16384], vec![65536, 1], vec![100, 70_000, 3], vec![4096; 40], vec![1; 50]];
+    for (i, pieces) in shapes.into_iter().enumerate() {
+        for api in 0..3u8 {
+            v.push(FCase::Fifo { mode: ModeC::Hash, prefix_len: if i % 2 == 1 { 77 } else { 0 }, pieces: pieces.clone(), content: Content { kind: 3, seed: 900 + i as u64 }, api, pause_us: 300 });
+        }
+    }
     Box::new(v.into_iter())
 }
 
 fn file_strategy(tier: Tier) -> BoxedStrategy<FCase> {
     let max = tier.pick(512 * 1024u32, 8 * 1024 * 1024u32);
-    (gen::mode4(), prop_oneof![3 => Just(0u16), 1 => 1u16..=3000], prop_oneof![6 => 16300u32..=16500, 4 => 0u32..=70_000, 4 => 0u32..=max, 1 => (1u32 << 20)..=(5u32 << 20)], gen::content())
-        .prop_map(|(mode, prefix_len, len, content)| FCase::Regular { mode, prefix_len, len, content })
-        .boxed()
+    let regular = (gen::mode4(), prop_oneof![3 => Just(0u16), 1 => 1u16..=3000], prop_oneof![6 => 16300u32..=16500, 4 => 0u32..=70_000, 4 => 0u32..=max, 1 => (1u32 << 20)..=(5u32 << 20)], gen::content())
+        .prop_map(|(mode, prefix_len, len, content)| FCase::Regular { mode, prefix_len, len, content });
+    let piece = prop_oneof![3 => 1u32..=200, 3 => 1u32..=5000, 2 => 16_000u32..=17_000, 1 => 60_000u32..=70_000, 1 => Just(0u32)];
+    let fifo = (gen::mode4(), prop_oneof![3 => Just(0u16), 1 => 1u16..=3000], prop::collection::vec(piece, 0..=12), gen::content(), 0u8..3, prop_oneof![Just(0u16), 50u16..=800])
+        .prop_map(|(mode, prefix_len, pieces, content, api, pause_us)| FCase::Fifo { mode, prefix_len, pieces, content, api, pause_us });
+    prop_oneof![12 => regular, 1 => fifo].boxed()
 }
 
 // ---------------------------------------------------------------------------
@@ -408,7 +501,7 @@ pub fn subs() -> Vec<Box<dyn DynSub>> {
         }),
         Box::new(EnumSub::<FCase> {
             name: "files-lattice",
-            rule: "enumeration: regular files of lengths 0,1,..,every length 16370..=16400 (16 KiB mapping threshold), 32 KiB/64 KiB/128 KiB +-1, ... in three modes with and without a prefix; special paths present on this system with stable content (/proc/version, /proc/cpuinfo, /dev/null, ...), a directory, a missing path; oracle: update_mmap == update_mmap_rayon == update_reader(File) == spec(file bytes); directory/missing give Err and leave the hasher untouched",
+            rule: "enumeration: regular files of lengths 0,1,..,every length 16370..=16400 (16 KiB mapping threshold), 32 KiB/64 KiB/128 KiB +-1, ... in three modes with and without a prefix; special paths present on this system with stable content (/proc/version, /dev/null, /proc/kallsyms, /sys/kernel/btf/vmlinux whose mmap fails, ...), named pipes fed in pieces by a writer thread (9 shapes x 3 APIs), a directory, a missing path; oracle: update_mmap == update_mmap_rayon == update_reader(File) == spec(file bytes); directory/missing give Err and leave the hasher untouched",
             items: file_items,
             classify: classify_file,
             check: check_file,
@@ -418,7 +511,7 @@ pub fn subs() -> Vec<Box<dyn DynSub>> {
         }),
         Box::new(PropSub::<FCase> {
             name: "files-random",
-            rule: "proptest: regular files with lengths concentrated in 16300..=16500 plus uniform <= 70 KB and <= 512 KiB (8 MiB thorough), four modes, optional prefix; same oracle",
+            rule: "proptest: regular files with lengths concentrated in 16300..=16500 plus uniform <= 70 KB and <= 512 KiB (8 MiB thorough), four modes, optional prefix; one case in 13 a named pipe fed in 0-12 pieces (1 B-70 KB each, optional pauses) through update_mmap / update_mmap_rayon / update_reader; same oracle",
             cases: (4_000, 30_000),
             strategy: file_strategy,
             classify: classify_file,
